@@ -2,7 +2,7 @@
 cache the resulting obligations."""
 import hashlib, json, os, sys, time, traceback
 from multiprocessing import Pool
-from . import configs, prog as progmod, e2run, contracts
+from . import configs, prog as progmod, e2run, contracts, mm
 from .interp import Unsupported
 
 HERE = os.path.dirname(os.path.abspath(__file__))
@@ -91,6 +91,7 @@ def run_one(job):
                 rec['error'] = f"[{vname}] {r['error']}"
             else:
                 contracts.post_invariants(I, inst, r['results'], r.get('args', []))
+                mm.check_root_post(I, inst, r['results'], r.get('args', []))
                 if post:
                     post(I, inst, r['results'])
             for o in I.obs:
